@@ -180,7 +180,7 @@ SHORT_PAIRINGS = [{"alias": "z", "db": None, "rec": {"AccessoryPairingID": "00:0
 
 
 def _errname(err: int) -> str:
-    return {5: "EIO", 13: "EACCES", 18: "EXDEV", 28: "ENOSPC"}.get(err, str(err))
+    return {5: "EIO", 13: "EACCES", 18: "EXDEV", 28: "ENOSPC", -1: "short write (disk filling up)"}.get(err, str(err))
 
 
 def prefixes(n: int, r: random.Random, limit: int) -> list[int]:
@@ -432,7 +432,8 @@ def execute(plan: dict, ch: Chooser) -> dict:
                 ctx.probe("saves_after_an_interrupted_save")
                 restart_and_load([_snapshot_pairings(c5)], "save after an interrupted save", desc)
         # ---------------- I/O errors instead of crashes: full disk, failing fsync, refused rename -------------------------
-        err_for = {"open_w": [13, 28], "os_open": [13, 28], "write": [28], "flush": [28, 5], "close": [28], "fsync": [5], "replace": [13, 18], "mkdir": [13]}
+        # (-1 = the write accepts only a prefix and does NOT raise: raw, unbuffered files)
+        err_for = {"open_w": [13, 28], "os_open": [13, 28], "write": [28, -1], "flush": [28, 5], "close": [28], "fsync": [5], "replace": [13, 18], "mkdir": [13]}
         for i, (kind, pth, n) in enumerate(trace):
             for err in err_for.get(kind, []):
                 for keep in ([0, max(1, n // 2)] if kind in ("write", "flush", "close") and n else [0]):
